@@ -32,6 +32,11 @@ fn scripts(quick: bool) -> Vec<(Vec<(usize, Step)>, usize)> {
     out.push((sequential(&[vec![link("m"), act(&[&a1, &a2, &a3, "@rem(2)", &a4])]]), 1));
     out.push((sequential(&[vec![link("m"), act(&[&a1, &a2]), act(&["@clr", &a3]), act(&[&a4, "@rem(1)"])]]), 1));
     out.push((sequential(&[vec![sync("m"), cmd("m", "@update(key:1) 1"), cmd("m", "@update(key:2) 2"), cmd("m", "@remove(key:1)"), cmd("m", "@clear"), cmd("m", "@update(key:3) 3")]]), 1));
+    // values of different encoded lengths for one key, a re-link with operations pending, a command
+    // the lane cannot decode in the middle of a stream
+    out.push((sequential(&[vec![link("m"), act(&[&upd(1, 1), &upd(1, 22222222), &upd(2, 3), &upd(1, 4), &upd(2, 55555)])]]), 1));
+    out.push((sequential(&[vec![link("m"), act(&[&a1, &a2, &a4]), link("m"), act(&[&a3]), sync("m")]]), 1));
+    out.push((sequential(&[vec![link("m"), cmd("m", "@update(key:1) 1"), cmd("m", "@bogus"), cmd("m", "@update(key:2) 2"), cmd("m", "@remove(key:1)")]]), 1));
     // take / drop by command (documented key order); all on lane m so that order is defined
     let u = |k: i32, v: i32| cmd("m", &format!("@update(key:{}) {}", k, v));
     out.push((sequential(&[vec![sync("m"), u(2, 2), u(3, 4), u(1, 1), cmd("m", "@take(2)")]]), 1));
